@@ -1,5 +1,6 @@
 import Proofs.TopK
 import Proofs.LinkLists
+import Proofs.MostLinked
 /-! C20 — most-linked pages: the bounded heap keeps the `k` largest keys `(indegree, arrival)`; the
     answer is in non-increasing order of indegree and no omitted page has a larger indegree than a
     listed one. The reported indegree of a page *with* inbound links is the number of distinct sources
@@ -38,5 +39,31 @@ theorem C20_lonely_witness (s : State) (h : s.cfg.lonelyIndegreeOne = true) : s.
   simp [indegreeEntries, h]
 theorem C20_lonely_repaired (s : State) (h : s.cfg.lonelyIndegreeOne = false) : s.indegreeEntries 0 = 0 := by
   simp [indegreeEntries, h]
+
+/-! ### the request itself, in every reachable state (Proofs/TraverseDepth, MostLinked) -/
+
+/-- THE PROPERTY: for every reachable state, webentity `w` asked with a full prefix list, every `k` (0 included) and depth limit: the answer is `rank k` of the candidate pages = the pages of `w` within the depth limit with their reported indegree; at most `k`, exactly min(k, #candidates); non-increasing; no omitted candidate has a larger reported indegree than a listed one; no page twice; reported indegree = number of distinct source blocks of the in-list, and for a page nobody links to 1 under the unchanged code (known finding D4: the header block decoded as one stub; it also changes which pages are listed) and 0 with the repair -/
+theorem C20_answer (cfg : Config) (dflt : Rule) (rules : List (Bytes × Rule)) (ops : List Op)
+    (hrules : ∀ ar ∈ rules, lruIter ar.1 ≠ [])
+    (hop : ∀ op ∈ ops, ∀ d rs, op ≠ .clear d rs) (hwf : ∀ op ∈ ops, OpWf op)
+    (hok : NoKeyErr (State.fresh cfg dflt rules []).1 ops)
+    (s : State) (hs : s = (State.fresh cfg dflt rules []).1.run ops) :
+    ∃ t, Shape s t ∧ Traph.Inv s t ∧
+      (∀ w ps k depth, FullPrefixList s w ps →
+        ∃ pages l, s.mostLinked ps k depth = .ok l ∧ l = rank k pages ∧
+          (∀ lru m, (lru, m) ∈ pages ↔ IsCandidate s t w depth lru m) ∧
+          ((ps.map lruIter).Nodup → (pages.map (·.1)).Nodup) ∧
+          l.length = min k pages.length ∧
+          (∃ dropped, (l ++ dropped).Perm pages ∧ ∀ x ∈ l, ∀ d ∈ dropped, d.2 ≤ x.2) ∧
+          (∀ lru m, (lru, m) ∈ l → IsCandidate s t w depth lru m) ∧
+          (l.map (·.2)).Pairwise (· ≥ ·) ∧
+          (∀ lru m, IsCandidate s t w depth lru m → (lru, m) ∉ l → ∀ x ∈ l, m ≤ x.2) ∧
+          ((ps.map lruIter).Nodup → (l.map (·.1)).Nodup)) ∧
+      (∀ head, head ≠ 0 → s.indegreeEntries head = (s.walk head).eraseDups.length) ∧
+      (s.cfg.lonelyIndegreeOne = true → s.indegreeEntries 0 = 1 ∧
+        ∀ head, s.indegreeEntries head = (s.walk head).eraseDups.length) ∧
+      (s.cfg.lonelyIndegreeOne = false → s.indegreeEntries 0 = 0) ∧
+      (∀ w, w ≠ 0 → FullPrefixList s w (prefixesOf s w) ∧ ((prefixesOf s w).map lruIter).Nodup) :=
+  Traph.C20_reachable cfg dflt rules ops hrules hop hwf hok s hs
 
 end Traph.Props
